@@ -16,6 +16,7 @@ import Driver.SM2
 import Driver.GCM
 import Driver.CTIR
 import Driver.GenDump
+import Driver.Listing
 import Driver.Asm
 open SMGo
 
@@ -110,6 +111,7 @@ def handle (line : String) : String :=
   if let some r := Driver.GCM.handle toks then r else
   if let some r := Driver.CTIR.handle toks then r else
   if let some r := Driver.GenDump.handle toks then r else
+  if let some r := Driver.Listing.handle toks then r else
   if let some r := Driver.Asm.handle toks then r else
   match toks with
   | ["cmp", a, b, l] =>
